@@ -1,5 +1,5 @@
 (* P19b stage 3, part 10: the hypotheses of build_values_clean / history_values_clean are satisfiable, and the conclusion is what the
-   computation shows: a six-rule set with a branch, a must-follow input and a single-use input, five builds with changes of the environment in between. *)
+   computation shows: a six-rule set with a branch, a must-follow input, a single-use input and discovered dependencies, five builds with changes of the environment in between. *)
 From LLB Require Import Engine.Rules Engine.Spec Engine.SpecInv1 Engine.SpecC01 Engine.Exec Engine.Impl Engine.ImplProofs Engine.ImplProofsExamples
   Engine.ImplVal7 Engine.ImplInc1 Engine.ImplInc9.
 From Coq Require Import Arith Lia.
@@ -11,19 +11,14 @@ Proof.
   inversion Hm as [|x l Hx Hl]. subst. destruct (N.eqb k k'); auto.
 Qed.
 
-(* inputs 0 1; 2 = f(0,1); 3 = f(2), must follow 1, branches on 2 to 0 or 1; 4 = f(3,2) with the single-use input 1; 5 = f(4) *)
-Definition T7 : list (key * rule) :=
-  [(0, mkRule 0 true [] [] [] None []); (1, mkRule 0 true [] [] [] None []);
-   (2, mkRule 1 false [0; 1] [] [] None []);
-   (3, mkRule 1 false [2] [] [1] (Some (0%nat, [0], [1])) []);
-   (4, mkRule 2 false [3; 2] [1] [] None []);
-   (5, mkRule 3 false [4] [] [] None [])].
-Definition R7 : key -> rule := rules_of T7.
+(* the six-rule set of ImplProofsExamples.v: inputs 0 1; 2 = f(0,1); 3 = f(2), must follow 1, branches on 2 to 0 or 1, discovers 0;
+   4 = f(3,2) with the single-use input 1; 5 = f(4), discovers 0.  Rule 4 issues its single-use request first (ord6). *)
+Definition T7 : list (key * rule) := T6.
+Definition R7 : key -> rule := R6.
 
-Example R7_ranked : wf_rank R7 rank6. Proof. apply (wf_rank_b_sound T7 rank6). vm_compute. reflexivity. Qed.
-Example R7_nodisc : forall k, r_disc (R7 k) = [].
-Proof. apply (rules_of_all (fun r => r_disc r = [])); [reflexivity|]. repeat constructor. Qed.
-Example ord0_ok : forall k, In RReq (ord0 k). Proof. intros k. cbn. auto. Qed.
+Example R7_ranked : wf_rank R7 rank6. Proof. exact R6_ranked. Qed.
+Example R7_wfdisc : wf_disc R7. Proof. unfold R7. rewrite R6_table. apply wf_disc_b_sound. vm_compute. reflexivity. Qed.
+Example ord6_ok' : forall k, In RReq (ord6 k). Proof. exact ord6_ok. Qed.
 
 Definition E7a : key -> N := env_of [(0, 1); (1, 2)].
 Definition E7b : key -> N := env_of [(0, 3); (1, 2)].
@@ -31,11 +26,11 @@ Definition E7c : key -> N := env_of [(0, 3); (1, 4)].
 (* build 5; build it again (nothing runs); input 0 changes; input 1 changes and key 4 is requested; everything changes back *)
 Definition H7 : list bspec :=
   [mkBspec E7a 5 [] 200 200; mkBspec E7a 5 [] 200 200; mkBspec E7b 5 [] 200 200; mkBspec E7c 4 [] 200 200; mkBspec E7a 5 [] 200 200].
-Definition res7 := run_builds R7 mixF ord0 all_sync init_istate H7.
+Definition res7 := run_builds R7 mixF ord6 all_sync init_istate H7.
 Definition end7 : istate := match res7 with Some (s, _) => s | None => init_istate end.
 Definition vals7 : list (option value) := match res7 with Some (_, v) => v | None => [] end.
 
-Lemma run7_eq : run_builds R7 mixF ord0 all_sync init_istate H7 = Some (end7, vals7).
+Lemma run7_eq : run_builds R7 mixF ord6 all_sync init_istate H7 = Some (end7, vals7).
 Proof. vm_compute. reflexivity. Qed.
 Lemma H7_ranks : forall b, In b H7 -> (rank6 (bs_root b) < 5)%nat.
 Proof. intros b Hb. unfold H7 in Hb. cbn [In] in Hb. repeat (destruct Hb as [Hb|Hb]; [subst b; cbn [bs_root]; vm_compute; lia|]). destruct Hb. Qed.
@@ -43,7 +38,7 @@ Proof. intros b Hb. unfold H7 in Hb. cbn [In] in Hb. repeat (destruct Hb as [Hb|
 (* the theorem applies ... *)
 Example history7_clean : vals7 = map (fun b => cv R7 (bs_env b) mixF 5 (bs_root b)) H7 /\ HInv R7 mixF end7.
 Proof.
-  pose proof (history_values_clean R7 mixF rank6 ord0 all_sync R7_ranked R7_nodisc ord0_ok 5 H7 init_istate end7 vals7 (HInv_init R7 mixF)) as H.
+  pose proof (history_values_clean R7 mixF rank6 ord6 all_sync R7_ranked R7_wfdisc ord6_ok 5 H7 init_istate end7 vals7 (HInv_init R7 mixF)) as H.
   specialize (H run7_eq). specialize (H H7_ranks). exact H.
 Qed.
 
@@ -52,8 +47,8 @@ Qed.
 Definition creates (l : list event) : nat := length (filter (fun e => match e with ECreate _ => true | _ => false end) l).
 Example history7_computed :
   vals7 = map (fun b => cv R7 (bs_env b) mixF 5 (bs_root b)) H7 /\
-  (let s1 := final_state (fst (ibuild R7 E7a mixF ord0 all_sync 200 200 init_istate 5 [])) in
-   let s2 := final_state (fst (ibuild R7 E7a mixF ord0 all_sync 200 200 s1 5 [])) in
-   let s3 := final_state (fst (ibuild R7 E7b mixF ord0 all_sync 200 200 s2 5 [])) in
+  (let s1 := final_state (fst (ibuild R7 E7a mixF ord6 all_sync 200 200 init_istate 5 [])) in
+   let s2 := final_state (fst (ibuild R7 E7a mixF ord6 all_sync 200 200 s1 5 [])) in
+   let s3 := final_state (fst (ibuild R7 E7b mixF ord6 all_sync 200 200 s2 5 [])) in
    creates (is_log s1) = 6%nat /\ creates (is_log s2) = 6%nat /\ (creates (is_log s2) < creates (is_log s3))%nat).
 Proof. vm_compute. repeat split; try reflexivity. all: lia. Qed.
